@@ -29,6 +29,9 @@ KWARGS = {
     "ins": INS,                                                           # save_log_q=False: densities re-derived
     "ins_logq": dict(INS, save_log_q=True),
     "ins_chain": dict(INS, max_iteration=4),
+    # many stored samples (15 000 per store after two iterations; the density table is re-derived on resume)
+    "ins_big": dict(INS, nlive=5000, min_samples=500, max_iteration=2, training_config={"max_epochs": 10}),
+    "ins_huge": dict(INS, nlive=20000, min_samples=2000, max_iteration=3, training_config={"max_epochs": 5}),
 }
 # class of each digested object -> (nessai class whose skeleton applies, classification table)
 OBJ_CLASS = {
@@ -98,6 +101,17 @@ def translate(chk):
         status["loop_prologue"] = f"declined: {e}"
     except Exception as e:
         status["loop_prologue"] = f"declined: translator error {type(e).__name__}: {e}"
+    try:
+        bplan, per = t.log_prob_plan()
+        status["log_prob_batching"] = f"translated: {bplan} (log_prob_all, log_prob_ith: {per})" + \
+            ("; no batching" if bplan == "NoBatch" else "")
+        chk._bplan = bplan
+    except Declined as e:
+        status["log_prob_batching"] = f"declined: {e}"
+        chk._bplan = None
+    except Exception as e:
+        status["log_prob_batching"] = f"declined: translator error {type(e).__name__}: {e}"
+        chk._bplan = None
     chk.translator = status
     return sks, infos, effs, unclassified, known, prol
 
@@ -130,11 +144,18 @@ def today(chk, sks, effs, unclassified, prol=None):
         txt += ("Lemma today_prologue_property : forall orig cks, Forall (fun note => note = orig) "
                 "(p_written (prologue prologue_now cks (after_resume_pool orig))).\n"
                 "Proof. exact (prologue_sound prologue_now today_prologue). Qed.\n")
+    if getattr(chk, "_bplan", None):
+        txt += f"Definition bplan_now : bplan := {chk._bplan}.\n"
+        txt += "Lemma today_bplan : bplan_ok bplan_now = true.\nProof. vm_compute. reflexivity. Qed.\n"
+        txt += ("Lemma today_bplan_property : forall (A B : Type) (d : A) (f : A -> B) (garbage : nat -> B) (l : list A),\n"
+                "  batch_eval d f garbage (plan_of bplan_now (List.length l)) l = map f l.\n"
+                "Proof. exact (bplan_sound bplan_now today_bplan). Qed.\n")
     ok, _, err = chk.coq_run("today", txt)
     chk.oblige("today: fields_ok on the regenerated skeletons of NestedSampler, ImportanceNestedSampler, FlowProposal, "
                "AugmentedFlowProposal, RejectionProposal, ImportanceFlowProposal, ImportanceFlowModel, OrderedSamples, "
                "Model; counter_ok on resume_from_pickled_sampler; prologue_ok on the loop prologue of nested_sampling_loop "
-               "(check_resume before the first update_state); instantiated roundtrip / counter / entry-checkpoint theorems",
+               "(check_resume before the first update_state); bplan_ok on the batching of log_prob_all / log_prob_ith; "
+               "instantiated roundtrip / counter / entry-checkpoint / batched re-derivation theorems",
                "today", ok, err)
     if not ok:
         ex = common.COQ_HEADER + IMPORTS
@@ -160,9 +181,11 @@ def gen_jobs(chk):
         [{"id": "chain-std", "kind": "chain", "sampler": "std_chain", "kills": [180, 250], "pre_evals": 3}],
         [{"id": "std_pool", "kind": "snapshots", "sampler": "std_pool", "select": {"max": 6} if q else {"stride": 6}}],
         [{"id": "std_entry", "kind": "regen", "sampler": "std_entry", "select": {"max": 2 if q else 8}}],
+        [{"id": "ins_big", "kind": "snapshots", "sampler": "ins_big", "select": {"first": 5}}],
     ]
     if not q:
         shards += [
+            [{"id": "ins_huge", "kind": "snapshots", "sampler": "ins_huge", "select": {"first": 6}}],
             [{"id": "std_time", "kind": "snapshots", "sampler": "std_time", "select": {"stride": 7, "max": 25}}],
             [{"id": "chain-std-2", "kind": "chain", "sampler": "std_chain", "kills": [101, 120, 333, 50], "pre_evals": 5},
              {"id": "chain-ins-2", "kind": "chain", "sampler": "ins_chain", "kills": [401, 250, 250], "pre_evals": 1}],
@@ -416,6 +439,17 @@ def run(chk):
                              f"{sampler} checkpoint {c['n']} (iteration {m['iteration']}): FlowSampler(resume=True) failed: "
                              f"{a.get('resume_error')}: {a.get('msg', '')[:200]}", dict(replay, expect="resume-raised"))
                     continue
+                for key, dv in a.get("derived", {}).items():
+                    chk.count(f"{sampler}:log_q rows " + ("> 50000" if dv.get("rows", 0) > 50000 else "> 10000"
+                                                          if dv.get("rows", 0) > 10000 else "<= 10000"))
+                    if dv.get("independent_close") is False or dv.get("independent_error"):
+                        chk.fail(f"C12:{sampler}:{key}:differs-from-independent-evaluation",
+                                 f"{sampler} checkpoint {c['n']}: the density table {key} of the resumed sampler ({dv.get('rows')} rows) "
+                                 f"differs from a flow-by-flow evaluation in chunks ({dv.get('independent_error') or 'rtol=atol=1e-4'}"
+                                 f"; rows not matching the writer's table: {dv.get('bad_rows')})",
+                                 dict(replay, expect="independent"))
+                    else:
+                        chk.oracle_validations += 1
                 compare(sampler, c["n"], c["before"], a["ready"], a.get("derived", {}), replay, fields, field_src, True)
                 bef = {(e["role"], e["field"]): e for e in c["before"]}
                 aft = {(e["role"], e["field"]): e for e in a["ready"]}
@@ -505,7 +539,7 @@ def run(chk):
     chk.oblige(f"correspondence: evaluation count reported at the end of each kill/resume chain = model chain on the observed "
                f"segments ({len(chains)} chains)", "correspondence", not bad, ", ".join(chain_src[i] for i in bad))
     chk.traces = len(fields) + len(entry_fields) + n_rt + len(chains)
-    chk.oracle_validations = sum(1 for s in field_src if s[3] == "log_q")
+    chk.oracle_validations += sum(1 for s in field_src if s[3] == "log_q")
 
 
 def replay(data):
@@ -584,6 +618,14 @@ def replay(data):
             print(json.dumps({"checkpoint": c["n"], "meta": c["meta"], "resume": a}, indent=1)[:1500])
             print(f"VIOLATION property={PID} replay=(replayed) resume raised {a.get('resume_error')}")
             rc = 1
+            continue
+        if rp.get("expect") == "independent":
+            bad = {k: v for k, v in a.get("derived", {}).items() if v.get("independent_close") is False or v.get("independent_error")
+                   or v.get("close") is False}
+            print(json.dumps({"checkpoint": c["n"], "derived": a.get("derived")})[:1200])
+            if bad:
+                print(f"VIOLATION property={PID} replay=(replayed) re-derived density table differs: {sorted(bad)}")
+                rc = 1
             continue
         if isinstance(rp.get("expect"), list):
             role, f = rp["expect"]
